@@ -134,6 +134,47 @@ def oracle_expect(text, max_depth):
     return 'ok ' + py_dump(r[1])
 
 
+def report(ctx, case, observed, expected, cls=None, failing_input=True, what=''):
+    """ctx.report with the failed check recorded in the case (distinct replay files for distinct checks on one input)."""
+    ctx.report(dict(case, check=cls), observed, expected, cls=cls, failing_input=failing_input, what=what)
+
+
+def decode_value(enc):
+    """Inverse of encode_value (argument encoding -> generated-value tuple)."""
+    pos = [0]
+
+    def until():
+        e = enc.index(';', pos[0])
+        r = enc[pos[0]:e]
+        pos[0] = e + 1
+        return r
+
+    def go():
+        t = enc[pos[0]]
+        pos[0] += 1
+        if t == 'N':
+            return ('n',)
+        if t == 'T':
+            return ('b', True)
+        if t == 'F':
+            return ('b', False)
+        if t == 'D':
+            return ('d', bytes.fromhex(until().split(':')[0]).decode())
+        if t == 'S':
+            return ('s', bytes.fromhex(until()).decode('utf-8'))
+        if t == 'A':
+            n = int(until())
+            return ('a', [go() for _ in range(n)])
+        n = int(until())
+        out = []
+        for _ in range(n):
+            pos[0] += 1
+            k = bytes.fromhex(until()).decode('utf-8')
+            out.append((k, go()))
+        return ('o', out)
+    return go()
+
+
 # ---------------------------------------------------------------------------------------------------
 # generated values: ('n',) ('b',bool) ('d',literal) ('s',str) ('a',[v]) ('o',[(k,v)])
 
@@ -549,27 +590,27 @@ def run_parse_batch(ctx, cases, max_depth):
             else:
                 exp = oracle_expect(text, max_depth if lim is None else lim)
         if a in ('DIED', 'TIMEOUT') or a.startswith('CRASH') or a.startswith('EXN') or a == 'err FUEL' or a.startswith('NOHANDLER'):
-            ctx.report(case, 'model=' + a[:200], 'a value or an error class', cls='model-broken', failing_input=False,
+            report(ctx, case, 'model=' + a[:200], 'a value or an error class', cls='model-broken', failing_input=False,
                        what='the extracted model crashed / ran out of fuel on this input (contradicts json_parse_safe)')
             continue
         if exp is not None:
             agree = (a == exp) if exp != 'err' else a.startswith('err')
             if not agree:
-                ctx.report(case, 'model=' + a[:300], 'oracle=' + exp[:300], cls='model-vs-oracle', failing_input=False,
+                report(ctx, case, 'model=' + a[:300], 'oracle=' + exp[:300], cls='model-vs-oracle', failing_input=False,
                            what='the proved model disagrees with the independent oracle (CPython json/float or the generator)')
         if b in ('PANIC', 'DIED', 'TIMEOUT'):
-            ctx.report(case, 'impl=' + b, 'model=' + a[:300], cls='parse-crash', failing_input=True,
+            report(ctx, case, 'impl=' + b, 'model=' + a[:300], cls='parse-crash', failing_input=True,
                        what='Value::parse %s on %r' % ({'PANIC': 'panicked', 'DIED': 'killed the process', 'TIMEOUT': 'did not return'}[b],
                                                        text[:80]))
             continue
         if a != b:
             bad.append((case, a, b))
         if ts == 'y' and not b.startswith('ok'):
-            ctx.report(case, 'impl=' + b[:200], 'accepted (JSONTestSuite y_ case)', cls='testsuite', failing_input=True,
-                       what='JSONTestSuite %s must be accepted' % tag)
+            report(ctx, case, 'impl=' + b[:200], 'accepted (JSONTestSuite y_ case)', cls='testsuite', failing_input=True,
+                       what='%s must be accepted (y_ case of JSONTestSuite or corpus)' % tag)
         if ts == 'n' and b.startswith('ok'):
-            ctx.report(case, 'impl=' + b[:200], 'rejected (JSONTestSuite n_ case)', cls='testsuite', failing_input=True,
-                       what='JSONTestSuite %s must be rejected' % tag)
+            report(ctx, case, 'impl=' + b[:200], 'rejected (JSONTestSuite n_ case)', cls='testsuite', failing_input=True,
+                       what='%s must be rejected (n_ case of JSONTestSuite or corpus)' % tag)
     if bad:
         # does the implementation behave like the tree before the fixes?
         old = ctx.model(['jparse_old %s' % hx(c['text']) for c, _, _ in bad[:200]])
@@ -586,7 +627,7 @@ def run_parse_batch(ctx, cases, max_depth):
                 what = 'Value::parse(%r) returns a different value than the text denotes' % case['text'][:80]
             if legacy:
                 what += ' (this is the behaviour of the tree before fixes F22/F23/F25)'
-            ctx.report(case, 'impl=' + b[:300], 'model=' + a[:300], cls='parse-mismatch', failing_input=not both_reject, what=what)
+            report(ctx, case, 'impl=' + b[:300], 'model=' + a[:300], cls='parse-mismatch', failing_input=not both_reject, what=what)
     return m, im
 
 
@@ -600,7 +641,7 @@ def run_serial(ctx, values, indents, max_depth):
         p = o.split(' ')
         case = {'kind': 'fdisp', 'literal': l, 'line': 'fdisp %s' % hx(l)}
         if p[0] != 'ok':
-            ctx.report(case, o, 'f64::from_str accepts an RFC number literal', cls='f64-hypothesis', failing_input=True,
+            report(ctx, case, o, 'f64::from_str accepts an RFC number literal', cls='f64-hypothesis', failing_input=True,
                        what='f64::from_str rejected the RFC 8259 number %r' % l)
             disp[l] = (l, '0' * 16)
             continue
@@ -608,10 +649,10 @@ def run_serial(ctx, values, indents, max_depth):
         disp[l] = (text, p[2])
         ctx.count('f64-display-checked')
         if p[2] != fbits(float(l)):
-            ctx.report(case, 'bits=' + p[2], 'CPython float bits=' + fbits(float(l)), cls='f64-hypothesis', failing_input=True,
+            report(ctx, case, 'bits=' + p[2], 'CPython float bits=' + fbits(float(l)), cls='f64-hypothesis', failing_input=True,
                        what='f64::from_str(%r) is not the correctly rounded double' % l)
         if not NUM_RE.match(text) or p[3] != p[2]:
-            ctx.report(case, 'display=%r reparsed=%s' % (text, p[3]), 'an RFC number that parses back to ' + p[2],
+            report(ctx, case, 'display=%r reparsed=%s' % (text, p[3]), 'an RFC number that parses back to ' + p[2],
                        cls='f64-hypothesis', failing_input=True,
                        what='f64 Display of the finite number %r is not a JSON number that parses back to it' % l)
     jobs = []
@@ -624,6 +665,7 @@ def run_serial(ctx, values, indents, max_depth):
     lines = ['jser %s %s' % ('-' if ind is None else ind, enc) for _, enc, _, _, ind in jobs]
     m, im = ctx.both(lines)
     reparse = []
+    textdiff = []
     for (v, enc, want, d, ind), a, b, line in zip(jobs, m, im, lines):
         ctx.count('serialize' if ind is None else 'pretty')
         if ind is not None:
@@ -631,17 +673,16 @@ def run_serial(ctx, values, indents, max_depth):
         ctx.mark_nontrivial(('s', enc, ind))
         case = {'kind': 'ser', 'indent': ind, 'value': enc, 'line': line}
         if not a.startswith('h'):
-            ctx.report(case, 'model=' + a[:200], 'text', cls='model-broken', failing_input=False, what='model serialiser failed')
+            report(ctx, case, 'model=' + a[:200], 'text', cls='model-broken', failing_input=False, what='model serialiser failed')
             continue
         if b in ('PANIC', 'DIED', 'TIMEOUT') or not b.startswith('h'):
-            ctx.report(case, 'impl=' + b[:200], 'model=' + a[:200], cls='ser-crash', failing_input=True,
+            report(ctx, case, 'impl=' + b[:200], 'model=' + a[:200], cls='ser-crash', failing_input=True,
                        what='serialize%s panicked or died' % ('' if ind is None else '_pretty(%d)' % ind))
             continue
         text = bytes.fromhex(b[1:]).decode('utf-8')
         if a != b:
             mt = bytes.fromhex(a[1:]).decode('utf-8')
-            ctx.report(case, 'impl=%r' % text[:300], 'model=%r' % mt[:300], cls='ser-mismatch', failing_input=False,
-                       what='serialised text differs from the model (validity and round trip are checked separately)')
+            textdiff.append((case, text, mt))
         reparse.append((case, text, want, d))
     lines2 = ['jparse %s' % hx(t) for _, t, _, _ in reparse]
     m2, im2 = ctx.both(lines2)
@@ -652,15 +693,20 @@ def run_serial(ctx, values, indents, max_depth):
         # validity: independent opinion
         o = oracle_expect(text, max_depth)
         if o is not None and o != exp:
-            ctx.report(case, 'serialised=%r' % text[:300], 'valid RFC 8259 text denoting the value', cls='ser-invalid',
+            report(ctx, case, 'serialised=%r' % text[:300], 'valid RFC 8259 text denoting the value', cls='ser-invalid',
                        failing_input=True, what='serialize%s emits text that CPython json does not read back as the value' % (
                            '' if case['indent'] is None else '_pretty(%d)' % case['indent']))
         if a != exp:
-            ctx.report(case, 'model parse=' + a[:300], 'original=' + exp[:300], cls='model-vs-oracle', failing_input=False,
+            report(ctx, case, 'model parse=' + a[:300], 'original=' + exp[:300], cls='model-vs-oracle', failing_input=False,
                        what='model round trip differs from the original value')
         if b != exp:
-            ctx.report(case, 'impl parse=' + b[:300], 'original=' + exp[:300], cls='roundtrip', failing_input=True,
+            report(ctx, case, 'impl parse=' + b[:300], 'original=' + exp[:300], cls='roundtrip', failing_input=True,
                        what='parse(serialize%s(v)) is not v' % ('' if case['indent'] is None else '_pretty(%d)' % case['indent']))
+    # text differences last (and only a few): a serialiser that is wrong shows up above with a failing input first
+    for case, text, mt in textdiff[:5]:
+        report(ctx, case, 'impl=%r' % text[:300], 'model=%r' % mt[:300], cls='ser-mismatch', failing_input=False,
+                   what='serialised text differs from the model in %d case(s) (validity and round trip are checked separately)'
+                   % len(textdiff))
 
 
 def run(ctx):
@@ -673,17 +719,8 @@ def run(ctx):
         elif c.get('kind') == 'fdisp':
             run_serial(ctx, [('d', c['literal'])], lambda v: [None], max_depth)
         elif c.get('kind') == 'ser':
-            # re-run the recorded line on both sides and the round trip
-            m, im = ctx.both([c['line']])
-            if m[0] != im[0]:
-                ctx.report(c, 'impl=' + im[0][:300], 'model=' + m[0][:300], cls='ser-mismatch', failing_input=False,
-                           what='serialised text differs from the model')
-            if im[0].startswith('h'):
-                text = bytes.fromhex(im[0][1:]).decode('utf-8')
-                m2, im2 = ctx.both(['jparse %s' % hx(text)])
-                if 'text' in c and (m2[0] != im2[0] or not im2[0].startswith('ok')):
-                    ctx.report(dict(c, text=text), 'impl parse=' + im2[0][:300], 'model parse=' + m2[0][:300], cls='roundtrip',
-                               failing_input=True, what='parse(serialize(v)) fails or differs')
+            ind = c.get('indent')
+            run_serial(ctx, [decode_value(c['value'])], lambda v: [ind], max_depth)
         return
     thorough = ctx.tier == 'thorough'
 
